@@ -3,6 +3,7 @@ CONSTANTS
   Configs <- ConfigsAll
   MaxOps = 7
   Defects = {}
+  SplitDestroy = TRUE
   LeaseOrder = "any"
 SPECIFICATION Spec
 INVARIANTS TypeOK InvOneState InvIdleList InvCounts InvNoDirty InvLimits InvRefusalJustified InvRefusalNeutral
